@@ -226,7 +226,7 @@ class Driver:
                 continue
             if s.state == "live":
                 self.queue.append(["conclude", sid])
-            n_over = plan.overrun if s.state != "construct_failed" else 0
+            n_over = plan.overrun if (s.final_emitted or s.stops) else 0
             for _ in range(n_over):
                 self.queue.append(["over", sid])
                 if plan.faults.get("obs") and rng.random() < 0.5:
